@@ -667,7 +667,19 @@ func runLines(r *Result, cs Case, rng *rand.Rand, dir string) {
 	if sep != "\n" || rng.Intn(2) == 0 {
 		opts["sep"] = sep
 	}
-	ex := execute("lines", path, opts, subsetPicker(rng))
+	pick := subsetPicker(rng)
+	if len(sep) > 1 || longLen > 0 {
+		// the two anticipated defects are attributed by what the TEXT column shows, so it is always
+		// requested where they can occur (with or without the number column)
+		withNumber := rng.Intn(2) == 0
+		pick = func(n int) []int {
+			if withNumber || n < 2 {
+				return []int{0, 1}[:n]
+			}
+			return []int{1}
+		}
+	}
+	ex := execute("lines", path, opts, pick)
 	replay := map[string]interface{}{"id": cs.ID, "kind": "lines", "sep": sep, "rows": len(f.Rows), "file": inlineContent(f.Content),
 		"used": schemaString(ex.used), "rerun": "./check C23 <tier> --only " + cs.ID}
 	r.count("inproc/lines/files", 1)
